@@ -164,7 +164,7 @@ Definition mismatch_C11 (c : case_C11) : bool :=
 Definition holds_obs (c : case_C11) (o : fobs) : bool :=
   cinv_b (frepr_of c) (k_op c) (k_pre c) (fo_tree o) (fo_ws o).
 
-(* after a handled fault: the pre-state, or a state in which check() reports an affected directory
+(* after a handled fault: the pre-state, the complete post-state, or a state in which check() reports an affected directory
    (removals are exempt: they destroy data by design and rmtree is not atomic) *)
 Definition detectable (c : case_C11) (o : fobs) : bool :=
   existsb (fun w =>
@@ -174,7 +174,8 @@ Definition detectable (c : case_C11) (o : fobs) : bool :=
     end) (fo_ws o).
 
 Definition fault_state_ok (c : case_C11) (o : fobs) : bool :=
-  is_removal (k_op c) || others_same [] (k_pre c) (fo_tree o) || detectable c o.
+  is_removal (k_op c) || others_same [] (k_pre c) (fo_tree o) || detectable c o
+  || post_ok (frepr_of c) (k_op c) (k_pre c) (fo_tree o).      (* the effect is complete; only the final validation read failed *)
 
 Definition holds_C11 (c : case_C11) : bool :=
   match k_probe c with
@@ -182,7 +183,8 @@ Definition holds_C11 (c : case_C11) : bool :=
       forallb (holds_obs c) sts
       && match out with
          | None => post_ok (frepr_of c) (k_op c) (k_pre c) (fo_tree (last sts {| fo_tree := k_pre c; fo_ws := [] |}))
-         | Some _ => true
+         | Some _ =>       (* refused without any fault (collision, corrupt state point): nothing may have changed *)
+             others_same [] (k_pre c) (fo_tree (last sts {| fo_tree := k_pre c; fo_ws := [] |}))
          end
   | PFault _ _ _ out post =>
       match out with
